@@ -161,7 +161,18 @@ def rule_e(prog, rep):
         else:
             rep.undecided("R-C02-e", where, "margin slice is coordinate -1, uncommon slice is [:-1] on the differenced axis", "index tuples are not built by a per-axis generator: margin %s" % tm.show(margin_idx)[:60])
         a_ok = axis_kw is not None and axis_kw.op == "binop" and axis_kw.args[0] == "+" and tm.contains(axis_kw, lambda x: x.op == "call" and tm.callee_name(x) == "builtins.len")
-        rep.check(a_ok, "R-C02-e", where, "the sum runs along the differenced axis, offset by the number of extra axes", "axis = len(scaffold) + axis", "axis is %s" % (axis_kw and tm.show(axis_kw)[:50]))
+        has_len = lambda t: tm.contains(t, lambda x: x.op == "call" and tm.callee_name(x) == "builtins.len")
+        if not a_ok and axis_kw is not None and axis_kw.op == "enumidx" and len(axis_kw.args) > 2 and axis_kw.args[2] is not None and has_len(axis_kw.args[2]):
+            a_ok = True  # enumerate(self.dims, len(self.scaffold)): the loop index already carries the offset
+        cons_ax = "the sum runs along the differenced axis, offset by the number of extra axes"
+        unshifted = axis_kw is not None and axis_kw.op == "enumidx" and (len(axis_kw.args) <= 2 or axis_kw.args[2] is None or tm.is_const(axis_kw.args[2], 0))
+        if a_ok:
+            rep.proved("R-C02-e", where, cons_ax, "axis = len(scaffold) + axis")
+        elif axis_kw is None or unshifted:
+            rep.violated("R-C02-e", where, cons_ax, "axis is %s: %s" % (axis_kw and tm.show(axis_kw)[:50], "no axis - everything is summed" if axis_kw is None else "the dimension's own number, without the extra axes in front of it"),
+                         witness={"inputs": "a dimension with extra axes (a 2-D index): the sum runs along an extra axis instead of the differenced one"})
+        else:
+            rep.undecided("R-C02-e", where, cons_ax, "axis is %s: not the recognised `len(scaffold) + axis` / enumerate(dims, len(scaffold)) forms" % tm.show(axis_kw)[:60])
     # no axis is skipped: the store is unconditional inside the per-axis loop
     from sa.symex import flat_guards as _fg
     g = _fg(e.guards)
@@ -181,7 +192,7 @@ def rule_e(prog, rep):
     it = li.get("iter")
     over_dims = it is not None and tm.contains(it, lambda x: x.op == "attr" and x.args[1] == "dims")
     whole = it is not None and ((tm.contains(it, lambda x: x.op == "call" and tm.callee_name(x) == "builtins.range") and not tm.contains(it, lambda x: x.op == "binop"))
-                                or (it.op == "call" and tm.callee_name(it) == "builtins.enumerate" and len(it.args[1]) == 1 and it.args[1][0].op == "attr" and it.args[1][0].args[1] == "dims")
+                                or (it.op == "call" and tm.callee_name(it) == "builtins.enumerate" and 1 <= len(it.args[1]) <= 2 and it.args[1][0].op == "attr" and it.args[1][0].args[1] == "dims")
                                 or (it.op == "attr" and it.args[1] == "dims"))
     if over_dims and whole:
         rep.proved("R-C02-e", where, "one differencing pass per dimension", "the loop runs over every dimension: %s" % tm.show(it)[:50])
